@@ -310,5 +310,6 @@ func checkC02(c *core.Ctx) {
 	c.Set("rule", "actor level: ActorSys behaviours and random scenarios with stash/unstash, immediate and poison kills (turn-gated real actor system) judged by OrderMon (SendOrder, ImmediateKillOvertakes, PoisonKillAfterPrior, StashOrder). ring: every operation word over {push,pop,popmany(2),popmany(5)} of the small configuration (all initial sizes x all words of MaxOps operations, printed by TLC), TLC-simulated words of 60 operations over initial sizes 1..8 and random 3000-operation burst words around sizes 64/255/256/257/511/512 are executed on the real RingQueue; results judged by RingMon. mailbox: random scenarios with 1-4 senders x 3-14 messages, system/user mixes, handler self-sends, ring sizes 1..8 under seeded fine-grained schedules; judged by MailboxMon (SenderFIFO, SystemFirst). Non-trivial: the word crosses a growth boundary / the scenario mixes system and user messages with more than 6 deliveries.")
 	// 5. kill ordering and stash ordering on the real actor system (turn-gated), judged by OrderMon
 	asCheck(c, asPlan{prop: "C02", monitors: []string{"OrderMon"}, mc: []string{"MC_T3_" + asVariant + ".cfg"}, gen: []string{"Gen_T3S_" + asVariant + ".cfg"},
-		ops: [][2]string{{"nop", ""}, {"nop", ""}, {"stash", ""}, {"stash", ""}, {"unstash", ""}, {"kill", "@"}, {"pkill", "@"}, {"tell", "@"}, {"fail", ""}}})
+		ops: [][2]string{{"nop", ""}, {"nop", ""}, {"stash", ""}, {"stash", ""}, {"unstash", ""}, {"kill", "@"}, {"pkill", "@"}, {"tell", "@"}, {"fail", ""},
+			{"sched-stash", ""}, {"sched-stash", ""}, {"unstash", ""}}})
 }
